@@ -28,11 +28,11 @@ void vp_q_popped(GQueue *q, gpointer e) {}
 #define NB 3
 #define ROWS 2
 t_bidib_board g_b[NB]; uint8_t g_count; _Bool g_change_at[ROWS]; uint8_t g_local[ROWS]; uint8_t g_uid[ROWS][7]; int g_hit[ROWS];
-unsigned g_step, g_row, g_lookups, g_getall, g_getnext, g_flushes;
+unsigned g_step, g_row, g_lookups, g_getall, g_getnext, g_flushes; uint8_t g_change_count;
 uint8_t *bidib_read_intern_message(void) {
 	uint8_t *m = malloc(16); __CPROVER_assume(m != NULL); m[0] = 15;
 	if (g_step == 0) { m[1] = 1; m[4] = g_count; }                       /* MSG_NODETAB_COUNT(count) */
-	else if (g_row < ROWS && g_change_at[g_row]) { m[1] = 1; g_change_at[g_row] = 0; m[4] = 0; }   /* table changed */
+	else if (g_row < ROWS && g_change_at[g_row]) { m[1] = 1; g_change_at[g_row] = 0; m[4] = g_change_count; }   /* table changed: the new table may have ANY length, also the same as before */
 	else { m[1] = 2; m[5] = g_row < ROWS ? g_local[g_row] : 0; for (int k = 0; k < 7; k++) m[6 + k] = g_row < ROWS ? g_uid[g_row][k] : 0; g_row++; }
 	g_step++;
 	return m;
